@@ -7,7 +7,7 @@ from pyvc import native
 def run(rep, tier, seed):
     verify_all(rep, k_index.specs('C03') + k_index.refusal_specs('C03'))
     sec = native.run('b_edit', 'main', {'props': ['C03'], 'tier': tier, 'seed': seed,
-                                        'ops': ['self', 'donor', 'slice'], 'norm': False})
+                                        'ops': ['self', 'donor', 'slice', 'views', 'optional'], 'norm': False})
     sec['native_entry'] = ('b_edit', 'replay')
     rep.bounded(sec)
     rep.remainder = ('the handlers\' implementation of the container law and the virtual-field merge logic of the '
